@@ -136,7 +136,7 @@ func (c *Chunker) Next() (*proto.LoadChunkRequest, error) {
 		StreamId:    c.streamID,
 		SequenceNum: c.sequenceNum,
 		IsLast:      totalRead < c.chunkSize,
-		Data:        buf.Bytes(),
+		Data:        bytes.Clone(buf.Bytes()), // buf goes back to the pool: do not alias it
 	}, nil
 }
 
